@@ -926,6 +926,174 @@ theorem mislabelled_remap_violates_spec :
     specB w0c (UxCall.remapNN 1 .edge).op ⟨w0c.heap, ⟨true, some 1, [(.other 0, 3), (.face, 17)]⟩⟩ [] = false := by
   decide
 
+/-! ## indexer forms: every form selects a list of positions `< n`; a mask selects its `true` positions -/
+
+theorem maskPos_length : ∀ (k : Nat) (m : List Bool), (maskPos k m).length = m.count true
+  | _, [] => rfl
+  | k, b :: m => by
+    cases b with
+    | true => simp [maskPos, maskPos_length (k + 1) m]
+    | false => simp [maskPos, maskPos_length (k + 1) m]
+
+theorem maskPos_mem : ∀ (k : Nat) (m : List Bool) (i : Nat),
+    i ∈ maskPos k m ↔ k ≤ i ∧ m[i - k]? = some true
+  | _, [], i => by simp [maskPos]
+  | k, b :: m, i => by
+    have ih := maskPos_mem (k + 1) m i
+    cases b with
+    | true =>
+      simp only [maskPos, if_true, List.mem_cons, ih]
+      constructor
+      · rintro (rfl | ⟨h1, h2⟩)
+        · simp
+        · refine ⟨by omega, ?_⟩
+          have : i - k = (i - (k + 1)) + 1 := by omega
+          rw [this]; simpa using h2
+      · rintro ⟨h1, h2⟩
+        by_cases hik : i = k
+        · exact Or.inl hik
+        · refine Or.inr ⟨by omega, ?_⟩
+          have : i - k = (i - (k + 1)) + 1 := by omega
+          rw [this] at h2; simpa using h2
+    | false =>
+      simp only [maskPos, Bool.false_eq_true, if_false, ih]
+      constructor
+      · rintro ⟨h1, h2⟩
+        refine ⟨by omega, ?_⟩
+        have : i - k = (i - (k + 1)) + 1 := by omega
+        rw [this]; simpa using h2
+      · rintro ⟨h1, h2⟩
+        by_cases hik : i = k
+        · subst hik; simp at h2
+        · refine ⟨by omega, ?_⟩
+          have : i - k = (i - (k + 1)) + 1 := by omega
+          rw [this] at h2; simpa using h2
+
+theorem intPos_lt {n : Nat} {i : Int} {p : Nat} (h : intPos n i = some p) : p < n := by
+  unfold intPos at h
+  split at h
+  · cases h; omega
+  · split at h
+    · cases h; omega
+    · cases h
+
+theorem mapM_intPos {n : Nat} : ∀ (l : List Int) (r : List Nat), l.mapM (intPos n) = some r →
+    r.length = l.length ∧ ∀ p ∈ r, p < n
+  | [], r, h => by simp at h; subst h; simp
+  | i :: l, r, h => by
+    rw [List.mapM_cons] at h
+    cases hi : intPos n i with
+    | none => simp [hi] at h
+    | some p =>
+      cases hl : l.mapM (intPos n) with
+      | none => simp [hi, hl] at h
+      | some r' =>
+        simp [hi, hl] at h
+        subst h
+        obtain ⟨h1, h2⟩ := mapM_intPos l r' hl
+        refine ⟨by simp [h1], ?_⟩
+        intro q hq
+        rcases List.mem_cons.mp hq with rfl | hq
+        · exact intPos_lt hi
+        · exact h2 q hq
+
+/-- **Every form of indexer selects positions inside the dimension** -/
+theorem normIdx_lt {n : Nat} {idx : Idx} {l : List Nat} (h : normIdx n idx = some l) : ∀ p ∈ l, p < n := by
+  cases idx with
+  | ints li => exact (mapM_intPos li l h).2
+  | slice a b st =>
+    simp only [normIdx, sliceIdx] at h
+    split at h
+    · cases h
+    · split at h
+      · cases h
+        intro p hp
+        exact List.mem_range.mp (List.mem_filter.mp hp).1
+      · cases h
+        intro p hp
+        exact List.mem_range.mp (List.mem_filter.mp (List.mem_reverse.mp hp)).1
+  | mask m =>
+    simp only [normIdx] at h
+    split at h
+    · rename_i hn
+      cases h
+      intro p hp
+      have := (maskPos_mem 0 m p).mp hp
+      have hlt : p - 0 < m.length := by
+        rcases Nat.lt_or_ge (p - 0) m.length with h1 | h1
+        · exact h1
+        · rw [List.getElem?_eq_none h1] at this; cases this.2
+      omega
+    · cases h
+
+/-- an integer list (negative entries, duplicates, any NumPy integer dtype) selects as many elements as it has
+    entries -/
+theorem normIdx_ints_length {n : Nat} {li : List Int} {l : List Nat} (h : normIdx n (.ints li) = some l) :
+    l.length = li.length := (mapM_intPos li l h).1
+
+/-- **a boolean mask selects exactly its `true` positions** (as many elements as it has `true` entries),
+    in increasing order of position -/
+theorem normIdx_mask {n : Nat} {m : List Bool} {l : List Nat} (h : normIdx n (.mask m) = some l) :
+    l.length = m.count true ∧ ∀ i, i ∈ l ↔ m[i]? = some true := by
+  simp only [normIdx] at h
+  split at h
+  · cases h
+    exact ⟨maskPos_length 0 m, fun i => by simpa using maskPos_mem 0 m i⟩
+  · cases h
+
+/-- **grid-`isel` after normalisation has the shape "number of selected elements" for every form**: on face
+    data attached to a consistent grid, slicing to the sub-grid of the selected faces (whose face count is the
+    length of the normalised list, `sub_node` / `sub_edge` whatever the selection touches) gives `n_face` that
+    length — for a mask its number of `true` entries — in the place `n_face` had. -/
+theorem isel_norm_shape {T : Table} {s s' : State} {n : Nat} {idx : Idx} {l : List Nat} {cn ce : Nat}
+    (_hn : normIdx n idx = some l) (hc : centred s.arr.dims = some .face)
+    (h : step T s (.gridIsel ⟨cn, ce, l.length⟩) = some s') :
+    s'.arr.dims = setLen s.arr.dims .face l.length := by
+  simp only [step] at h
+  split at h
+  · rename_i x d hx hcd
+    rw [hc] at hcd
+    cases hcd
+    cases h
+    rfl
+  · cases h
+
+/-- a mask CAST to integers is another selection: `n` entries (copies of elements 0 and 1) instead of the `true`
+    positions — the regression witness of the seeded change C10f and of `Grid.isel(n_face=mask)` as it stood -/
+theorem mask_cast_to_ints_is_wrong :
+    normIdx 8 (.mask [false, false, false, false, true, true, true, true]) = some [4, 5, 6, 7] ∧
+    normIdx 8 (maskAsInts [false, false, false, false, true, true, true, true]) = some [0, 0, 0, 0, 1, 1, 1, 1] := by
+  decide
+
+theorem count_true_lt : ∀ {m : List Bool}, false ∈ m → m.count true < m.length
+  | [], h => by cases h
+  | b :: m, h => by
+    have hle : m.count true ≤ m.length := List.count_le_length
+    cases b with
+    | false => simp; omega
+    | true =>
+      have : false ∈ m := by
+        rcases List.mem_cons.mp h with h | h
+        · cases h
+        · exact h
+      have := count_true_lt this
+      simp; omega
+
+/-- for EVERY mask that is not all-`true`, the cast selects a different number of elements -/
+theorem mask_cast_length_differs {n : Nat} {m : List Bool} {l l' : List Nat}
+    (h : normIdx n (.mask m) = some l) (h' : normIdx n (maskAsInts m) = some l') (hf : false ∈ m) :
+    l.length < l'.length := by
+  have h1 := (normIdx_mask h).1
+  have h2 := normIdx_ints_length h'
+  rw [h1, h2, List.length_map]
+  exact count_true_lt hf
+
+example : normIdx 6 (.ints [-1, 1, 1]) = some [5, 1, 1] := by decide
+example : normIdx 6 (.slice none none (-1)) = some [5, 4, 3, 2, 1, 0] := by decide
+example : normIdx 6 (.slice (some 1) (some (-1)) 2) = some [1, 3] := by decide
+example : normIdx 6 (.slice (some 3) (some 3) 1) = some [] := by decide
+example : normIdx 6 (.ints [6]) = none := by decide
+
 /-! ## grid-`isel` is by name: it commutes with transposition -/
 
 theorem centred_perm {ds nd : Dims} (hp : nd.Perm ds) : centred nd = centred ds := by
